@@ -67,6 +67,11 @@ type ArchiveDecoder struct {
 	// Set once the first entry, the root of the archive, was decoded
 	started   bool
 	rootIsDir bool
+
+	// Number of directories that have been entered and not left yet
+	depth int
+	// The end of the stream was reached
+	eof bool
 }
 
 // NewArchiveDecoder initializes a decoder for a catar archive.
@@ -96,6 +101,8 @@ loop:
 		if a.last != nil {
 			c = a.last
 			a.last = nil
+		} else if a.eof {
+			c = nil
 		} else {
 			c, err = a.d.Next()
 			if err != nil {
@@ -159,7 +166,19 @@ loop:
 				break loop
 			}
 			a.dir = filepath.Dir(a.dir)
+			if a.depth > 0 {
+				a.depth--
+			}
 		case nil:
+			// Every directory is closed by a goodbye element, the archive
+			// is cut short if some are missing
+			a.eof = true
+			if entry != nil { // return what the archive ends with first
+				break loop
+			}
+			if a.depth > 0 || name != "" {
+				return nil, InvalidFormat{"unexpected end of archive"}
+			}
 			return nil, nil
 
 		default:
@@ -186,6 +205,7 @@ loop:
 
 	// If it doesn't have a payload or is a device/symlink, it must be a directory
 	if isDir {
+		a.depth++
 		a.dir = path.Join(a.dir, name)
 		return NodeDirectory{
 			Name:   a.dir,
